@@ -200,6 +200,8 @@ def canon(o, memo=None, ignore=("seen_remote",)):
     t = type(o)
     if o is None or t in (int, bool, str, bytes, float):
         return (t.__name__, o)
+    if t.__module__.startswith("crosshair"):
+        return ("int", o)          # symbolic integer leaf: compared later with rt.sym_same
     if id(o) in memo:
         return ("ref", memo[id(o)])
     if t in (list, tuple):
